@@ -175,12 +175,13 @@ def unit_eval(item):
     order = item[7] if len(item) > 7 else None
     spec = ALL_SPECS[skey]
     p = Partial()
-    insts = spec.instances("quick", seed)
+    # TSP: the 6-node generator instances (60 tours each: best-of-k really depends on which candidates are present)
+    insts = spec.instances("deep" if skey == "tsp" else "quick", seed)
     groups = {}
     for iid, inst in insts:
         td = spec.td(inst)
         groups.setdefault(tuple((k, tuple(v.shape[1:])) for k, v in sorted(td.items())), []).append((iid, inst, td))
-    g = max(groups.values(), key=len)
+    g = max(groups.values(), key=len) if skey != "tsp" else max(groups.values(), key=lambda g_: (g_[0][2]["locs"].shape[1] == 6, len(g_)))
     want = 4 if bs == 3 else 3
     env = spec.env(g[0][1])
     pol = make("am", env, 0)
@@ -255,7 +256,9 @@ def unit_eval(item):
             with Seam().active():
                 gr = evaluate_policy(env, pol, ds1, method="greedy", batch_size=1, auto_batch_size=False, progress=False)
             greedy_r = float(gr["rewards"][0])
-            if method.startswith("augment") and rew < greedy_r - 1e-5 * (1 + abs(greedy_r)):
+            # augmentation keeps the identity copy; full multi-start on TSP starts one rollout from every node, so the
+            # greedy rollout (which starts from its own first node) is among the candidates in both cases
+            if (method.startswith("augment") or (skey == "tsp" and method.startswith("multistart") and not mkw.get("num_starts"))) and rew < greedy_r - 1e-5 * (1 + abs(greedy_r)):
                 p.violation(sig(env_name, cfg, "worse_than_greedy", method), rec, f"evaluate_policy({method}) on {skey}: instance {iid} gets {rew} < single greedy {greedy_r} although the identity copy with the greedy rollout is a candidate")
             p.outcome(f"{skey}|{method}|{rew >= greedy_r - 1e-6}")
     p.sample(dict(part="evaluate_policy", env=skey, method=method, kwargs=mkw, loader_batch_size=bs, instances=[x[0] for x in g]), cap=1)
